@@ -114,7 +114,7 @@ func genAnyPointer(typ reflect.Type) *Generator[any] {
 			val := elemGen.value(t)
 			ptr := reflect.New(elem)
 			ptr.Elem().Set(reflect.ValueOf(val))
-			return ptr.Interface()
+			return ptr.Convert(typ).Interface()
 		} else {
 			return reflect.Zero(typ).Interface()
 		}
